@@ -576,10 +576,10 @@ func fnKey(fn *ssa.Function) string {
 
 // callSSA interprets a call to function fn.
 func callSSA(i *interpreter, caller *frame, callpos token.Pos, fn *ssa.Function, args []value, env []value) value {
-	if st := i.eng.stubs[fn]; st != nil {
+	if st := i.eng.stubFor(fn, i.h); st != nil {
 		fn = st
 	} else if fn.Origin() != nil {
-		if st := i.eng.stubs[fn.Origin()]; st != nil {
+		if st := i.eng.stubFor(fn.Origin(), i.h); st != nil {
 			fn = st
 		}
 	}
